@@ -27,6 +27,8 @@ def add_canaries(unit):
     expression); all of them must fail"""
     n = 0
     for mod in unit.mods:
+        if mod.name.startswith('dep_') and unit.name != 'deps':
+            continue        # the dependency text gets its canaries in the `deps` unit only
         for sel in mod.items:
             for name, fc in list(sel.fns.items()):
                 if callable(fc):
@@ -79,6 +81,15 @@ def run_unit(name, factory, canaries=True, rlimit=30):
             for d in rc['diagnostics']:
                 if d['line'] in klines and d['message'].startswith('assertion failed'):
                     failed_fns.add(klines[d['line']])
+            # a canary that exhausts the resource limit is not proved either (the solver could not derive false)
+            rl_fns = set()
+            for i_ in list(cc['infra']):
+                if 'esource limit' in i_['message'] or 'rlimit' in i_['message']:
+                    cc['infra'].remove(i_)
+                    for (a_, b_, fid_) in gc.fn_spans:
+                        if i_['line'] is not None and a_ <= i_['line'] <= b_:
+                            rl_fns.add(fid_)
+            failed_fns |= rl_fns
             expected = set(klines.values())
             out['canaries_expected'] = len(expected) + 1
             ok_global = any('prelude_consistent__canary' in (c.get('fn') or '') or
